@@ -4,6 +4,7 @@ use crate::runner::PropertyDef;
 pub mod c01;
 pub mod c02;
 pub mod c03;
+pub mod c04;
 pub mod c05;
 pub mod c06;
 pub mod c07;
@@ -17,6 +18,7 @@ pub fn get(id: &str) -> Option<PropertyDef> {
         "C01" => Some(c01::def()),
         "C02" => Some(c02::def()),
         "C03" => Some(c03::def()),
+        "C04" => Some(c04::def()),
         "C05" => Some(c05::def()),
         "C06" => Some(c06::def()),
         "C07" => Some(c07::def()),
